@@ -305,7 +305,10 @@ def check(case) -> Verdict:
 
 
 # ---- generator ---------------------------------------------------------------------------------------------
-_lit = st.sampled_from(['a', 'b', 'x y', '1', '', ':', '/'])
+# (only "elements of the form ${var_name}" are replaced: a `$` that does not begin such an element is an ordinary
+# character - `$NAME`, `$$`, `US$5`, `$ {V}`)
+_lit = st.sampled_from(['a', 'b', 'x y', '1', '', ':', '/', 'a', 'b', '$', '$$', 'US$5', '$%s' % NAMES[0], '$ {%s}' % NAMES[0],
+                        '$x$'])
 _part = st.tuples(st.just('lit'), _lit) | st.tuples(st.just('ref'), st.sampled_from(NAMES + ['NOPE', 'PATH']))
 _of = st.sampled_from(['none', 'act', '!act'])
 
